@@ -1,4 +1,5 @@
 """Shared driver for C02 (ordered) and C03 (unordered): optimum against the joint-DP reference model."""
+import os
 import copy
 import itertools
 import math
@@ -60,7 +61,8 @@ class Hooks:
         self.mod = mod
 
     def _wrap(self, mod, name, record):
-        self.attached[name] = hasattr(mod, name)
+        # VERIF_NO_L2=1 (self-test only): measure what the boundary monitors catch on their own
+        self.attached[name] = hasattr(mod, name) and not os.environ.get("VERIF_NO_L2")
         if not self.attached[name]:
             return
         orig = getattr(mod, name)
@@ -329,6 +331,11 @@ def run_generic(ctx, prop, kind, algos, spec):
                 )
                 if spec.get("min_sp", 1) >= 5:
                     ctx.count("wide_species_cases")
+                if spec.get("cheap_hgt"):
+                    # host switches: a transfer costs less than a duplication or a full loss, speciations are free - whole
+                    # subtrees are moved to unrelated lineages in the optimum
+                    case["costs"] = {"spe": 0, "dup": rng.randint(3, 5), "hgt": 1, "floss": rng.randint(2, 4), "sloss": rng.randint(0, 2)}
+                    ctx.count("cheap_transfer_cases")
                 case["algos"] = list(algos)
                 tiny = len(case["leafmap"]) <= 3 and len(case["S"]) <= 3 if not isinstance(case["S"], str) else True
                 check_case(ctx, prop, case, algos, hooks=hooks, selfcheck=tiny and k % 5 == 0)
